@@ -398,8 +398,8 @@ def record_sessions(seed: int, n_traces: int, length: int) -> List[Dict[str, Any
                 op = "ListedSpot"
             if op == "Restrike" and (w.nstrike[d] >= 2 or (kind in ("whalley-wilmott", "black-scholes") and d == "d1")):
                 op = "Payoff"
-            if op == "SetCost" and w.ncost[ul] >= 2:
-                op = "ComputePL"
+            if op == "SetCost" and (w.ncost[ul] >= 2 or (kind == "whalley-wilmott" and ul == "p1")):
+                op = "ComputePL"             # (the Whalley-Wilmott model of this world is built from d1: its band reads p1's cost rate whatever it hedges)
             if op == "Fit" and kind == "shared-module-prev":
                 op = "ComputePL"             # the two hedgers of this kind share trainable parameters BY CONSTRUCTION: fit() of one is fit() of both
             h = rng.choice(["h1", "h1", "h2"]) if op.startswith("Compute") or op in ("Price", "Fit") else "-"
@@ -635,7 +635,7 @@ def check(ctx: Ctx) -> None:
             raise MachineryError(f"Session.tla: action {a} never taken")
     sim = ctx.tlc("MC_Session", "MC_Session_sim.cfg", workers=4, simulate=f"num={150 if ctx.tier == 'quick' else 1500}", depth=10, seed=ctx.seed + 5)
     n = 0
-    stride = 23 if ctx.tier == "quick" else 41
+    stride = 23 if ctx.tier == "quick" else 173
     for k, rec in enumerate(ex.records):
         if k % stride:
             continue
